@@ -198,3 +198,20 @@ def shrink(nodes, outcome, want, max_rounds=6):
 
 def skeleton(nodes):
     return '+'.join(sorted(n['op'] for n in nodes if n['d']))
+
+
+LOOP_OPS = '{"LoopSum","LoopConcat","Take","Inflate","Multiply","Add","IntToFloat","InsertAxis","Sum","Transpose","Diagonalize","Power"}'
+
+
+def corpus(rep, rng, tag, k, *, quick, need_arg=True, core_leaves='{1, 2, 13, 14, 22}', extra=()):
+    """standard program corpus for the ArraySem-based checks: small exhaustive part + simulated full vocabulary + loop-heavy"""
+    progs = generate(rep, tag + '-exh', MaxNodes=5, MaxOps=2, MaxLeaves=3, Ops='CoreOps', LeafSet=core_leaves, EmitMin=2, exhaustive=True)
+    sims = generate(rep, tag + '-sim', MaxNodes=12, MaxOps=7, MaxLeaves=5, EmitMin=3, simulate=150 if quick else 3000, depth=13, seed=rep.seed + 11)
+    loops = generate(rep, tag + '-loops', MaxNodes=10, MaxOps=5, MaxLeaves=4, EmitMin=3, Ops=LOOP_OPS,
+                     LeafSet='{1, 2, 8, 13, 14, 20, 22, 23}', simulate=150 if quick else 3000, depth=11, seed=rep.seed + 12)
+    loops = [p for p in loops if any(n['op'] in ('LoopSum', 'LoopConcat') for n in p)]
+    sel = select(progs, k // 3, rng, need_arg=need_arg) + select(sims, k // 3, rng, need_arg=need_arg) + select(loops, k // 3, rng)
+    for name, kw, sim in extra:
+        sel += select(generate(rep, tag + '-' + name, EmitMin=2, simulate=sim, depth=kw['MaxNodes'] + 1, seed=rep.seed + 13, **kw), k // 6, rng)
+    rep.constants['ExprBuilder'] = dict(exhaustive_programs=len(progs), simulate_programs=len(sims), loop_programs=len(loops), selected=len(sel))
+    return sel
